@@ -225,7 +225,16 @@ fn main() {
         });
         let nr = run.tier(60_000u64, 20_000_000u64);
         run.generate("random-long", nr, false, 0.6, |ctx, _idx, rng| {
-            let a = Point::new(rng.i32r(-300, 300), rng.i32r(-300, 300));
+            // one line in eight lies far from the origin (beyond 16 bits on one or both axes)
+            let far = |rng: &mut egmon::Rng| match rng.below(16) {
+                0 => 32_768 + rng.i32r(-300, 300),
+                1 => -32_768 + rng.i32r(-300, 300),
+                2 => 65_536 + rng.i32r(-300, 300),
+                3 => -rng.i32r(40_000, 1_000_000),
+                4 => rng.i32r(40_000, 1_000_000),
+                _ => rng.i32r(-300, 300),
+            };
+            let a = if rng.chance(1, 8) { Point::new(far(rng), far(rng)) } else { Point::new(rng.i32r(-300, 300), rng.i32r(-300, 300)) };
             let b = match rng.below(6) {
                 0 => Point::new(a.x + rng.i32r(-200, 200), a.y),
                 1 => Point::new(a.x, a.y + rng.i32r(-200, 200)),
